@@ -564,8 +564,8 @@ pub fn run(ctx: &Ctx) {
     ctx.assume("identity and ratios are compared with relative tolerance 1e-9 (the library divides by rate(A) and multiplies by rate(B))");
     ctx.run_table(&MoneyProp, "all-literal-spellings", literal_table(), true);
     ctx.run_table(&MoneyProp, "all-rated-pairs", pair_table(), true);
-    ctx.run_generated(&MoneyProp, ctx.tier.pick(10_000, 300_000), case_strategy);
-    ctx.run_generated(&RateHistory, ctx.tier.pick(300, 10_000), history_strategy);
+    ctx.run_generated(&MoneyProp, ctx.tier.pick(60_000, 600_000), case_strategy);
+    ctx.run_generated(&RateHistory, ctx.tier.pick(1_500, 20_000), history_strategy);
 }
 
 pub fn replay(w: &mut Worker, sub: &str, case: &serde_json::Value) -> Option<Verdict> {
